@@ -26,6 +26,7 @@ package state
 //@ func State.PlayAndRepost
 //@   property C17
 //@   ensures [C05] failed_play_leaves_no_speculative_memory: result != nil ==> memGen == old(memGen) || memClean == memGen
+//@   ensures [C03] refused_block_revives_no_spent_output: result != nil ==> memGen == old(memGen) || memClean == memGen
 //@   local block *xldgpb.InternalBlock
 //@   at Meta.UpdateNextIrreversibleBlockHeight assert irr_args_current: $0 == block.Height && $1 == t.meta.Meta.IrreversibleBlockHeight && $2 == t.meta.Meta.IrreversibleSlideWindow
 //@   at State.updateLatestBlockid assert irr_update_dominates_pointer: sel(irrUpdFor, ifacePtr($1)) == block.Height && bytesEq($0, block.Blockid)
@@ -77,6 +78,7 @@ package state
 //@ func State.doTxInternal
 //@   property C02
 //@   ensures [C05] refused_before_memory_is_touched: result != nil ==> memGen == old(memGen)
+//@   ensures [C02] refused_tx_moves_no_balance: result != nil ==> memGen == old(memGen)
 //@   local txInput *protos.TxInput
 //@   local txOutput *protos.TxOutput
 //@   at UtxoVM.UpdateUtxoTotal assert total_only_for_coinbase: tx.Coinbase && $2 && sel(bigval, $0) == natOf(txOutput.Amount) && $1 == batch
@@ -306,6 +308,14 @@ package state
 // as far as the memory model knows, rewrite. What is asserted is that a request is only
 // started with a non-negative budget and charged at the chain's price.)
 
+// A regulator's mark on a transaction counts only if the key it names belongs to the
+// configured regulator address and the signature over the transaction's digest (taken
+// without the mark) verifies under that key - a check that answers "false" without an
+// error is a rejection like any other.
+//@ func State.verifyMarkedTx
+//@   property C07
+//@   ensures mark_needs_a_valid_signature_of_the_regulator: result == nil ==> xcc.VerifyAddressUsingPublicKey(t.utxo.ModifyBlockAddr, ecdsaKey) && xcc.VerifyECDSA(ecdsaKey, bytesign, digestHash)
+
 // ---- callers: nothing is applied unverified ----
 //@ func State.verifyMarked
 //@   noverify
@@ -377,6 +387,7 @@ package state
 //@ func State.doTxSync
 //@   property C06
 //@   ensures [C05] refused_tx_leaves_no_speculative_memory: result != nil ==> memGen == old(memGen) || memClean == memGen
+//@   ensures [C02] refused_tx_moves_no_balance: result != nil ==> memGen == old(memGen) || memClean == memGen
 //@   local batch kvdb.Batch
 //@   local writeErr error
 //@   local doErr error
